@@ -7,8 +7,9 @@ git -C /repo worktree add --detach $WT HEAD >/dev/null 2>&1 || exit 2
 (cd $WT && git apply /verif/$1) || { echo "patch fails"; git -C /repo worktree remove --force $WT; exit 2; }
 S=$(mktemp -d /tmp/fpbn.XXXXXX); cp known_findings.txt $S/; mkdir -p $S/spec; cp -r spec/* $S/spec/
 export GOFLAGS=-mod=mod GOPROXY=off GOSUMDB=off GOTOOLCHAIN=local GOWORK=off CGO_ENABLED=0
-(cd checker && go build -o ../bin/fpcheck .) || exit 2
-./bin/fpcheck -property ${2:-all} -tier quick -repo $WT -verif $S 2>&1 | grep -v "^WARN" | grep -E "rule=|tier=|^  [^ ]" | cut -c1-${COLS:-400}
+BIN=${FPBIN:-./bin/fpcheck}
+[ -n "$FPBIN" ] || (cd checker && go build -o ../bin/fpcheck .) || exit 2
+$BIN -property ${2:-all} -tier quick -repo $WT -verif $S 2>&1 | grep -v "^WARN" | grep -E "rule=|tier=|^  [^ ]" | cut -c1-${COLS:-400}
 grep -h "normalisation" $S/evidence/*.json 2>/dev/null | sort -u | head -${NOTES:-5} | cut -c1-300
 rm -rf $S
 [ -n "$KEEP" ] || git -C /repo worktree remove --force $WT
